@@ -1,19 +1,19 @@
-import Gkv.Model.World
+import Gkv.Model.Driver
 open Gkv
 
-partial def loop (h : IO.FS.Stream) (out : IO.FS.Stream) (w : World) : IO Unit := do
+partial def loop (h : IO.FS.Stream) (out : IO.FS.Stream) (d : DState) : IO Unit := do
   let line ← h.getLine
   if line.isEmpty then return ()
   let l := line.trimAscii.toString
   if l.isEmpty || l.startsWith "#" then
     out.putStrLn ""
-    loop h out w
+    loop h out d
   else
-    let (w', o) := step w l
+    let (d', o) := dstep d l
     out.putStrLn o
-    loop h out w'
+    loop h out d'
 
 def main : IO Unit := do
   let stdin ← IO.getStdin
   let stdout ← IO.getStdout
-  loop stdin stdout { files := [], stores := [] }
+  loop stdin stdout { w := { files := [], stores := [] } }
